@@ -1,5 +1,5 @@
 ------------------------- MODULE RouterLifecycleTrace -------------------------
-(* Trace validation for C10.  Events: reset | addh h pub | subscribed h ctx | runcall | running |
+(* Trace validation for C10.  Events: reset | addh h pub | addplugin i ok | plugin i | adddup h panicked | subscribed h ctx | runcall | running |
    runret k ok | rhcall i | rhret i ok | started h | stopcall h | stopret h | stopped h |
    probe h ok | cancelrun | closecall | closeret ok | closedseen | quiesce unstopped      (stoppanic / stoppednil match no action) *)
 EXTENDS RouterLifecycleAbs, TraceBase
@@ -7,9 +7,12 @@ tvars == <<lvars, l>>
 TInit == LInit0 /\ LInit
 TReset == /\ Is("reset") /\ added' = << >> /\ subs' = << >> /\ atRun' = {} /\ runs' = 0 /\ runRet' = FALSE /\ started' = {}
           /\ stopReq' = {} /\ stopped' = {} /\ ending' = FALSE /\ rhPend' = << >> /\ closedSeen' = FALSE
-          /\ cancelled' = FALSE /\ ctxOf' = << >> /\ Adv
+          /\ cancelled' = FALSE /\ ctxOf' = << >> /\ plugins' = << >> /\ pran' = 0 /\ Adv
 TNext == \/ TReset
          \/ Is("addh") /\ AddHandler(Ev.h, Ev.pub) /\ Adv
+         \/ Is("addplugin") /\ AddPlugin(Ev.i, Ev.ok) /\ Adv
+         \/ Is("plugin") /\ PluginRan(Ev.i) /\ Adv
+         \/ Is("adddup") /\ AddDuplicate(Ev.h, Ev.panicked) /\ Adv
          \/ Is("subscribed") /\ Subscribed(Ev.h, Ev.ctx) /\ Adv
          \/ Is("runcall") /\ RunCall /\ Adv
          \/ Is("running") /\ RunningSeen /\ Adv
